@@ -217,7 +217,12 @@ def hash_model(alg, data, outlen):
         val = zi(byte_int(data))
         out = uf_bytes('Hb', outlen, _ALG[alg], n, val)
     for (a2, d2, o2) in CONFIG.hash_log:
-        if a2 != alg or len(d2) != len(data):
+        if a2 != alg:
+            continue
+        if len(d2) != len(data):
+            m = min(len(o2), outlen)
+            if CONFIG.collision_free and m >= 16 and not (isinstance(data, bytes) and isinstance(d2, bytes)):
+                e.add(z3.Not(to_z3bool(bytes_eq(out[:m], o2[:m]))))
             continue
         both_sym = not isinstance(data, bytes) and not isinstance(d2, bytes)
         both_conc = isinstance(data, bytes) and isinstance(d2, bytes)
